@@ -260,6 +260,10 @@ def run(ctx):
             for skip in (False, True):
                 grid.append({'spec': dict(base, kex=kexes, rate=rate), 'skip_rate': skip, 'argv': []})
                 grid.append({'spec': dict(base, kex=kexes, rate=rate), 'skip_rate': skip, 'argv': ['-j']})
+    # throttling servers: one banner every so many milliseconds, over the whole range in which the measured rate crosses the safe limit
+    for ms in list(range(20, 400, 10 if ctx.quick else 2)) + [500, 800, 1200]:
+        for kexes in (['diffie-hellman-group14-sha256'], ['diffie-hellman-group-exchange-sha256', 'curve25519-sha256']):
+            grid.append({'spec': dict(base, kex=kexes, rate='paced:%d' % ms), 'skip_rate': False, 'argv': [['-j'], []][ms % 20 == 0]})
     ctx.map(grid)
     # SSH-1 peers: -1, the version-mismatch fallback, and a peer that keeps answering with the mismatch text
     s1 = []
